@@ -1256,3 +1256,73 @@ pub mod c04e9 {
         t
     }
 }
+
+/// C16 R5 controls: doubles written to a document as integers
+pub mod c16cast {
+    pub struct Number(pub i128);
+    impl Number {
+        pub fn from_i64(n: i64) -> Number { Number(n as i128) }
+        pub fn from_u64(n: u64) -> Number { Number(n as i128) }
+    }
+    /// BAD: i64::MAX as f64 is 2^63, which the cast turns into i64::MAX
+    pub fn bad_inclusive_bound(n: &f64) -> Option<Number> {
+        if *n >= i64::MIN as f64 && *n <= i64::MAX as f64 { Some(Number::from_i64(*n as i64)) } else { None }
+    }
+    /// BAD: whole numbers between 2^64 and 1e21 saturate
+    pub fn bad_abs_bound(n: &f64) -> Option<Number> {
+        if n.abs() < 1e21 && *n >= 0.0 { Some(Number::from_u64(*n as u64)) } else { None }
+    }
+    /// GOOD
+    pub fn good_strict_bound(n: &f64) -> Option<Number> {
+        if *n >= i64::MIN as f64 && *n < i64::MAX as f64 { Some(Number::from_i64(*n as i64)) } else { None }
+    }
+}
+
+/// C01 R21 controls: a stand-in for the insertion-ordered map (paths look like the real crate's)
+pub mod indexmap {
+    pub struct IndexMap<K, V> { pub e: Vec<(K, V)> }
+    impl<K: PartialEq, V> IndexMap<K, V> {
+        pub fn swap_remove(&mut self, k: &K) -> Option<V> {
+            let i = self.e.iter().position(|x| &x.0 == k)?;
+            Some(self.e.swap_remove(i).1)
+        }
+        pub fn shift_remove(&mut self, k: &K) -> Option<V> {
+            let i = self.e.iter().position(|x| &x.0 == k)?;
+            Some(self.e.remove(i).1)
+        }
+    }
+}
+pub mod c01order {
+    use super::indexmap::IndexMap;
+    pub fn bad_delete(m: &mut IndexMap<u32, u32>, k: u32) -> bool { m.swap_remove(&k).is_some() }
+    pub fn good_delete(m: &mut IndexMap<u32, u32>, k: u32) -> bool { m.shift_remove(&k).is_some() }
+}
+
+/// C03 R7 controls: a token-set pre-filter in front of a dispatcher
+pub mod prefilter {
+    #[derive(Clone, PartialEq)]
+    pub enum TokenKind { A, B, C, D, E, F, G, H, I, J, K, L, Eof }
+    pub struct Parser { pub cur: TokenKind, pub next: TokenKind }
+    impl Parser {
+        /// the dispatcher: eleven kinds begin the construct
+        pub fn parse_thing(&mut self) -> Option<u32> {
+            match self.cur {
+                TokenKind::A => Some(1), TokenKind::B => Some(2), TokenKind::C => Some(3), TokenKind::D => Some(4), TokenKind::E => Some(5),
+                TokenKind::F => Some(6), TokenKind::G => Some(7), TokenKind::H => Some(8), TokenKind::I => Some(9), TokenKind::J => Some(10),
+                TokenKind::K => Some(11),
+                _ => None,
+            }
+        }
+        /// BAD: a transcription of the dispatcher's arms that lost `K`
+        fn starts_thing_bad(&self) -> bool {
+            matches!(self.cur, TokenKind::A | TokenKind::B | TokenKind::C | TokenKind::D | TokenKind::E | TokenKind::F | TokenKind::G | TokenKind::H | TokenKind::I | TokenKind::J)
+        }
+        /// GOOD: all of them (and one more)
+        fn starts_thing_good(&self) -> bool {
+            matches!(self.cur, TokenKind::A | TokenKind::B | TokenKind::C | TokenKind::D | TokenKind::E | TokenKind::F | TokenKind::G | TokenKind::H | TokenKind::I | TokenKind::J
+                | TokenKind::K | TokenKind::L)
+        }
+        pub fn bad_gate(&mut self) -> Option<u32> { if self.starts_thing_bad() { self.parse_thing() } else { None } }
+        pub fn good_gate(&mut self) -> Option<u32> { if self.starts_thing_good() { self.parse_thing() } else { None } }
+    }
+}
